@@ -334,6 +334,9 @@ func cmdCheck(args []string) int {
 		have[a.Name] = a
 	}
 	replayDir := filepath.Join(verifRoot, "replays", "out", spec.Property)
+	if d := os.Getenv("GCV_REPLAY_OUT"); d != "" {
+		replayDir = filepath.Join(d, spec.Property) // seed trials and development runs keep their replay files apart
+	}
 	os.RemoveAll(replayDir)
 	report := func(name, why string, a *AggOb) {
 		if kf := isKnown(name); kf != nil {
@@ -445,8 +448,22 @@ func writeEvidence(cr *checkRun, tier string, seed int, total, discharged, viola
 	var funcs []map[string]interface{}
 	var solveMS, genMS int64
 	subgoals := 0
+	autoFns := 0
+	regDrivers := 0
+	for name := range loadReplayIndex() {
+		for _, a := range cr.aggs {
+			if a.Name == name {
+				regDrivers++
+			}
+		}
+	}
 	for _, r := range cr.results {
-		funcs = append(funcs, map[string]interface{}{"function": r.Name, "sub_goals": len(r.Obs), "blocks_reached": r.Blocks, "blocks": r.BlocksAll, "vacuity_guard": r.Vacuity, "solve_ms": r.SolveMS})
+		fm := map[string]interface{}{"function": r.Name, "sub_goals": len(r.Obs), "blocks_reached": r.Blocks, "blocks": r.BlocksAll, "vacuity_guard": r.Vacuity, "solve_ms": r.SolveMS}
+		if r.Auto != nil {
+			fm["replay"] = "value function: a refuted post-condition is replayed on the real code by a generated driver"
+			autoFns++
+		}
+		funcs = append(funcs, fm)
 		solveMS += r.SolveMS
 		genMS += r.GenMS
 		subgoals += len(r.Obs)
@@ -506,6 +523,7 @@ func writeEvidence(cr *checkRun, tier string, seed int, total, discharged, viola
 			"known_findings_met":       known,
 			"abstracted_instructions":  cr.abstr,
 			"bounded_stand_ins":        cr.spec.Bounded,
+			"replay_drivers":           map[string]int{"registered_for_obligations_of_this_check": regDrivers, "functions_with_generated_driver": autoFns},
 			"solver_ms":                solveMS,
 			"vcgen_ms":                 genMS,
 			"load_ms":                  cr.loadMS,
